@@ -44,6 +44,8 @@ def tasks(tier, seed):
             if SYMS[first][1] == R.CONT:
                 continue
             ts.append({"part": "inc", "v": vi, "first": first, "depth": dinc, "name": "inc/%d/%d" % (vi, first)})
+            for prelude in PRELUDES[1:]:
+                ts.append({"part": "inc", "v": vi, "first": first, "depth": dinc - 1, "prelude": prelude, "name": "inc/%s/%d/%d" % (prelude, vi, first)})
             ts.append({"part": "burst", "v": vi, "first": first, "depth": dburst, "name": "burst/%d/%d" % (vi, first)})
         ts.append({"part": "lengths", "v": vi, "name": "lengths/%d" % vi})
     return ts
@@ -99,6 +101,9 @@ def check_log(sock, stream_frames, label, vi):
                                 label, end, prev))
 
 
+PRELUDES = ["fresh", "connected", "reused-midmessage", "after-send_close"]
+
+
 class IncHarness:
     def __init__(self, d):
         self.d = d
@@ -107,11 +112,11 @@ class IncHarness:
         d = self.d
         lib.reset_globals()
         env.install_urandom("counter")
-        sock = env.ScriptSock(b"", at_end="timeout")
-        ws = env.make_ws(sock)
+        prelude = d.get("prelude", "fresh")
+        ws, sock = env.prepared_ws(prelude)
         seq = R.Sequencer()
         frames = []
-        hist = []
+        hist = [] if prelude == "fresh" else ["<%s>" % prelude]
         for step in range(d["depth"]):
             legal = [s for s in SYMS if seq.allows(s[2], s[1])]
             if step == 0:
